@@ -20,7 +20,7 @@ RULE = ("seeded operation SEQUENCES over the full MutableMapping/MutableSequence
         "reference model, the backend observer and seeded search + shrinking. Non-trivial = the run contains an op "
         "that raised in the model or a slice/comparison/mixin op; distinct = step-shape hashes.")
 ASSUMPTIONS = ["documented deviations built into the model: forbidden keys/values rejected, dict.pop(missing) -> None, "
-               "popitem may return any item, tuples/bytes/ranges stored as lists, dict order compared as a set",
+               "popitem must return the last inserted item unless a bulk update/reset happened on the resource before (then any item), tuples/bytes/ranges stored as lists, dict order compared as a set",
                "reset(x) is modelled as clear()+update(x)/extend(x), ValueError for the wrong kind",
                "Redis/MongoDB/Zarr are in-process stubs"]
 COMPONENTS = {"real": ["synced_collections (working tree)", "tmpfs file system"], "stub": ["redis", "mongo+bson", "zarr+numcodecs"]}
@@ -32,7 +32,7 @@ def make_cfg(rs, tier):
     cfg["nobj"] = rs.choice([1, 1, 2])   # a second object is only ever used as a comparison operand (never loaded before)
     cfg["p_outside"] = 0.0
     cfg["p_mut"] = rs.choice([0.4, 0.6])
-    cfg["oracles"] = ["backend", "result"]
+    cfg["oracles"] = ["backend", "result", "popitem_lifo"]
     return cfg
 
 
